@@ -433,13 +433,21 @@ class simplify_chained_calls(FuncADLNodeTransformer):
         if type(call_node.func) is ast.Lambda:
             arg_asts = [self.visit(a) for a in call_node.args]
             kw_asts = [(k.arg, self.visit(k.value)) for k in call_node.keywords]
+            # Give the parameters fresh names first: parts of the result get visited more than
+            # once, and an argument that mentions the parameter's own name (lambda x: ...)(x.jets)
+            # would otherwise be substituted into itself a second time.
+            unique_func = make_args_unique(call_node.func)
+            new_names = {
+                old.arg: new.arg
+                for old, new in zip(call_node.func.args.args, unique_func.args.args)
+            }
             with stack_frame(self._arg_stack):
-                for a_name, arg in zip(call_node.func.args.args, arg_asts):
+                for a_name, arg in zip(unique_func.args.args, arg_asts):
                     self._arg_stack.define_name(a_name.arg, arg)
                 for k_name, arg in kw_asts:
-                    self._arg_stack.define_name(k_name, arg)
+                    self._arg_stack.define_name(new_names.get(k_name, k_name), arg)
                 # Now, evaluate the expression, and then lift it.
-                return self.visit(call_node.func.body)
+                return self.visit(unique_func.body)
         elif _is_method_call_on_first(call_node):
             return self.select_method_call_on_first(call_node)
         else:
